@@ -17,6 +17,24 @@ CHECKS = {
         "Trusted: harness/gen.py (grammar, expected_view), the library constructors storing their arguments (asserted per case).",
         "DESIGN.md section 4, C20",
     ),
+    "C02": (
+        "exploration",
+        "exhaustive 1/2/3-cut and char-by-char partition sweeps of a corpus + Hypothesis streams/partitions, prefix-delivery oracle from the generating specs",
+        "Generated-input search: message streams in canonical and foreign spellings are fed to the real Buffer under every 1-, 2- (3- in "
+        "thorough) cut partition of a corpus and under drawn partitions of drawn streams, at three thresholds; after every process call the "
+        "delivered views must equal the expected views of exactly the messages completed so far. Exploration with exhaustive parts.",
+        "Trusted: harness/gen.py serializer and expected views; element length as the smallest threshold covered by the statement.",
+        "DESIGN.md section 4, C02",
+    ),
+    "C11": (
+        "exploration",
+        "Hypothesis fragment-alphabet junk/truncation/corruption streams x fragmentations x thresholds, exhaustive truncation positions, atheris campaign (thorough); safety, metamorphic junk-transparency and recovery oracles",
+        "Generated-input search with invariants (terminates, raises nothing, only registered messages, retention <= threshold), a metamorphic "
+        "relation (harmless junk does not change what is delivered nor when) and a recovery obligation after every truncation position of a "
+        "corpus; coverage-guided fuzzing adds byte-level inputs in the thorough tier. Termination is bounded termination. Exploration.",
+        "Trusted: the harmless-junk construction (no known-tag opener), SIGALRM backstop as the termination bound.",
+        "DESIGN.md section 4, C11",
+    ),
     "C03": (
         "exploration",
         "exhaustive attribute-subset sweep + Hypothesis grammar/foreign-spelling round-trip (metamorphic), structural-view oracle",
